@@ -2,7 +2,8 @@
 import itertools
 from collections import Counter
 
-from ..core import Prop
+from ..core import Prop, Case
+from ..ops import Config
 from ..codec import B
 from .. import observe as ob
 from .. import fsck
@@ -15,12 +16,14 @@ class C03(Prop):
             "after EVERY step, for every page: get_page_links (out, in, internal sides and their weights) vs the Counter of "
             "submitted (source,target) pairs, out-weight(s->t) == in-weight(t<-s) == submissions, count_links, links_iter in "
             "both directions (transposes, no pair twice), the six degree figures, and the raw link lists via fsck; at the end "
-            "all 8 switch combinations of get_page_links. non-trivial = >= 1 link submitted more than once AND (>= 1 "
+            "all 8 switch combinations of get_page_links; plus one scale probe (a hub page with > 1000 links, a link repeated at both "
+            "ends of its list). non-trivial = >= 1 link submitted more than once AND (>= 1 "
             "self-link OR a page that is both source and target within one request).")
     MODES = ("url", "mixed", "raw")
-    LONG_BIAS = 0.2
+    LONG_BIAS = 0.25
+    BACKENDS = ("file", "file", "memory")
     WEIGHTS = {"page": 2, "pages": 1, "links": 6, "batch": 6, "again": 3, "create": 1, "delete": 1, "addprefix": 1,
-               "rmprefix": 0, "move": 0, "rule": 1, "unrule": 0, "reopen": 1}
+               "rmprefix": 0, "move": 0, "rule": 1, "unrule": 0, "reopen": 1, "clear": 1}
     QUICK = (40, 18)
     THOROUGH = (200, 40)
     TECHNIQUE = ("stateful property-based testing (Hypothesis) against a ledger oracle; thorough tier adds coverage-guided "
@@ -132,6 +135,30 @@ class C03(Prop):
     def nontrivial(self, case):
         f = case.flags
         return "repeated-link" in f and ("self-link" in f or "source-and-target-in-one-request" in f)
+
+    # scale probe: one hub page with far more links than any generated history holds (list lengths > 1000), a link repeated
+    # at the two ends of the hub's list, a self-link in the middle
+    def extra_checks(self, ctx, tier, seed, shard, nshards):
+        if shard != 0:
+            return
+        n = 1100 if tier == "quick" else 2600
+        case = Case(self, ctx, Config(backend="memory"), None)
+        try:
+            hub = b"s:http|h:com|h:hub|"
+            t0 = b"s:http|h:com|h:hub|p:target|"
+            others = [b"s:http|h:com|h:o%d|p:%d|" % (i % 7, i) for i in range(n)]
+            for op in (("links", [(hub, t0), (hub, t0)]),
+                       ("batch", [(hub, others[: n // 2] + [hub] + others[n // 2:])], 50),
+                       ("links", [(hub, t0), (others[3], hub), (others[3], hub)])):
+                out = case.idx.apply(op)
+                if out.status != "ok":
+                    ctx.fail("exception", "scale probe: request %s failed: %r" % (op[0], out.exc), case)
+                case.led.apply(op, out)
+                case.ops.append(op)
+            self.check_state(case, full=False)      # one evaluation of the whole oracle on the big state
+            ctx.extra["scale_probe_links"] += sum(case.led.links.values())
+        finally:
+            case.abort()
 
 
 PROP = C03()
